@@ -6,6 +6,11 @@
 //        [maxit=<int>] [width=<double>] [ts=<int>] [speg=<0|1>] [spen=<int>] [spetol=<double>]
 //        [fae=<double>] [cc=<0|1>] [nshift=<double>] [kshift=<double>]
 //        [unset=<comma list of d,k,nm,em>]   keywords NOT passed (the library default is used)
+//        [dump=1]    print the returned matrix (E line) and the projection deviation (P line)
+//        [ix=<0|1|2>] the form of the index range handed to embed(): 0 = 0 .. N-1 over an N-column matrix;
+//                    1 = N-1 .. 0 (sample i is column N-1-i); 2 = 1, 3, 5, .. over a matrix of 2N+3 columns whose
+//                    other columns are far-away decoys (sample i is column 2i+1).  Row i of the result must
+//                    describe the i-th element of the range in every form.
 //        [stack=<KiB>]  the call is made on a thread whose stack has this size (serial mode only): recursion whose
 //                    depth grows with N overflows it
 //        [par=<T>]   the call is made from INSIDE an `omp parallel num_threads(T)` region of the
@@ -22,6 +27,11 @@
 //   R <id> EXC <name>                      a documented tapkee exception type
 //   R <id> UNDOC <what>                    any other exception (not documented -> violation)
 //   Q <id> <t> <same payload as R>         par mode: the outcome seen by thread t >= 1 (R = thread 0)
+//   E <id> <rows> <cols> <rows*cols hex doubles, row-major>   (only with dump=1, serial mode, before the R line)
+//                                          the returned matrix itself: the Python side judges the clause
+//                                          "row i describes input sample i" on it
+//   P <id> <dev> <scale>                   (dump=1, methods that return a projecting function) dev = max_i
+//                                          |embedding.row(i) - projection(sample i)|_inf, scale = max |entry|
 //   T <id>                                 the in-process watchdog (alarm) fired: the call hangs
 // The process exits after a T line (exit code 7); sanitizer / assertion aborts end it as well: the
 // Python side attributes the failure to the last marker and restarts after that case.
@@ -88,7 +98,8 @@ static const DimensionReductionMethod* method_by_name(const std::string& s)
 // one call of tapkee::embed; the outcome as the payload of an R line
 static std::string call_embed(std::vector<IndexType>& idx, eigen_kernel_callback& kcb, eigen_distance_callback& dcb,
                               eigen_features_callback& fcb, const ParametersSet& ps,
-                              const DimensionReductionMethod& m, const DenseMatrix& X, int N, int D)
+                              const DimensionReductionMethod& m, const DenseMatrix& X, int N, int D,
+                              std::string* extra = nullptr, long id = 0)
 {
     char buf[256];
     try
@@ -108,11 +119,51 @@ static std::string call_embed(std::vector<IndexType>& idx, eigen_kernel_callback
             else
                 for (int i = 0; i < N && rowtie; i++)
                     for (int j = 0; j < D; j++)
-                        if (!(E(i, j) == X(j, i)))
+                        if (!(E(i, j) == X(j, idx[i])))
                         {
                             rowtie = 0;
                             break;
                         }
+        }
+        if (extra && E.rows() * E.cols() <= 40000)
+        {
+            std::string& x = *extra;
+            snprintf(buf, sizeof buf, "E %ld %ld %ld", id, (long)E.rows(), (long)E.cols());
+            x += buf;
+            for (Eigen::Index i = 0; i < E.rows(); i++)
+                for (Eigen::Index j = 0; j < E.cols(); j++)
+                {
+                    snprintf(buf, sizeof buf, " %a", (double)E(i, j));
+                    x += buf;
+                }
+            x += "\n";
+            if (out.projection.implementation && E.rows() == N)
+            {
+                double dev = 0.0, scale = 0.0;
+                bool bad = false;
+                for (int i = 0; i < N && !bad; i++)
+                {
+                    DenseVector v = out.projection(DenseVector(X.col(idx[i])));
+                    if (v.size() != E.cols())
+                    {
+                        bad = true;
+                        break;
+                    }
+                    for (Eigen::Index j = 0; j < E.cols(); j++)
+                    {
+                        const double a = std::fabs((double)v(j) - (double)E(i, j));
+                        if (!(a <= dev))
+                            dev = a;       // NaN sticks
+                        if (std::fabs((double)E(i, j)) > scale)
+                            scale = std::fabs((double)E(i, j));
+                    }
+                }
+                if (bad)
+                    snprintf(buf, sizeof buf, "P %ld BADLEN 0\n", id);
+                else
+                    snprintf(buf, sizeof buf, "P %ld %a %a\n", id, dev, scale);
+                x += buf;
+            }
         }
         snprintf(buf, sizeof buf, "OK %ld %ld %ld %d", (long)E.rows(), (long)E.cols(), nonfinite, rowtie);
         return buf;
@@ -219,7 +270,15 @@ int main()
             break;
         long id = atol(kv["id"].c_str());
         int N = atoi(kv["N"].c_str()), D = atoi(kv["D"].c_str());
-        DenseMatrix X(D, N);
+        const int ix = kv.count("ix") ? atoi(kv["ix"].c_str()) : 0;
+        const int ncols = ix == 2 ? 2 * N + 3 : N;
+        std::vector<IndexType> idx(N);
+        for (int i = 0; i < N; i++)
+            idx[i] = ix == 1 ? N - 1 - i : (ix == 2 ? 2 * i + 1 : i);
+        DenseMatrix X(D, ncols);
+        for (int c = 0; c < ncols; c++)
+            for (int j = 0; j < D; j++)
+                X(j, c) = 1.0e3 * (c + 1) + 7.0 * j;       // decoy columns (ix=2): finite, far from every sample
         {
             std::istringstream ss(xline.size() > 1 ? xline.substr(1) : std::string());
             for (int i = 0; i < N; i++)
@@ -227,7 +286,7 @@ int main()
                 {
                     std::string tok;
                     ss >> tok;
-                    X(j, i) = strtod(tok.c_str(), nullptr);
+                    X(j, idx[i]) = strtod(tok.c_str(), nullptr);
                 }
         }
         const DimensionReductionMethod* m = method_by_name(kv["m"]);
@@ -295,9 +354,6 @@ int main()
 #endif
         int wd = kv.count("wd") ? atoi(kv["wd"].c_str()) : 15;
 
-        std::vector<IndexType> idx(N);
-        for (int i = 0; i < N; i++)
-            idx[i] = i;
         eigen_kernel_callback kcb(X);
         eigen_distance_callback dcb(X);
         eigen_features_callback fcb(X);
@@ -371,8 +427,10 @@ int main()
             }
             else if (par <= 0)
             {
-                std::string r = call_embed(idx, kcb, dcb, fcb, ps, *m, X, N, D);
+                std::string extra;
+                std::string r = call_embed(idx, kcb, dcb, fcb, ps, *m, X, N, D, kv.count("dump") ? &extra : nullptr, id);
                 alarm(0);
+                fputs(extra.c_str(), stdout);
                 printf("R %ld %s\n", id, r.c_str());
             }
             else
